@@ -147,7 +147,7 @@ def run(ctx):
         if f["what"] in seen:
             continue
         seen.add(f["what"])
-        ctx.violation(f"{f['class']}: {f['what']}", dict(kind="c15", **f))
+        ctx.violation(f"{f['class']}: {f['what']}", {**f, "check": "c15"})
 
 
 def replay(doc):
